@@ -414,7 +414,9 @@ func (d *DirectoryOutputHandler) Load(
 
 	// WaitGroup to wait for all goroutines to finish
 	var waitGroup sync.WaitGroup
-	errChan := make(chan error, len(tree.Children))
+	// One goroutine per file may report an error while nobody receives before
+	// waitGroup.Wait() returns: keep the first error and never block a sender
+	errChan := make(chan error, 1)
 	// Recursively load the directory structure
 	if err := d.loadDirectoryRecursive(ctx, dirPath, tree.Root, childrenMap, progress, &waitGroup, errChan); err != nil {
 		return fmt.Errorf("failed to load directory structure: %w", err)
@@ -457,7 +459,11 @@ func (d *DirectoryOutputHandler) loadDirectoryRecursive(
 			console.GetLogger(ctx).Debugf("loading file for directory output %s from digest %s", filePath, digest)
 			err := d.downloadFile(ctx, digest, filePath, fileNode.IsExecutable, progress)
 			if err != nil {
-				errChan <- fmt.Errorf("failed to download file %s: %v", filePath, err)
+				select {
+				case errChan <- fmt.Errorf("failed to download file %s: %v", filePath, err):
+				default:
+					// an earlier error is already recorded
+				}
 			}
 		}(filePath, fileNode.Digest.Hash)
 	}
